@@ -99,6 +99,14 @@ def load_known():
 def run_property(prop_id: str, tier: str, seed: int, procs: int | None = None) -> int:
     t0 = time.time()
     mod = _load(prop_id)
+    # import the repository once in the parent so that forked workers share it
+    import maze_dataset  # noqa: F401
+    import maze_dataset.tokenization  # noqa: F401
+    import maze_dataset.dataset.rasterized  # noqa: F401
+    import maze_dataset.plotting  # noqa: F401
+
+    if hasattr(mod, "warmup"):
+        mod.warmup()
     jobs = mod.jobs(tier, seed)
     procs = procs or int(os.environ.get("VERIF_PROCS", "16"))
     total = ExploreResult()
